@@ -244,5 +244,7 @@ func c14SliceZoo(w *mon.W, idx int) {
 	if !eqWords(words, orig) {
 		w.Fail("Slice/input-modified", mon.D{"words": truncW(orig, 4), "after": truncW(words, 4)})
 	}
-	w.Sample(func() interface{} { return mon.D{"call": "Slice, sampled windows", "nwords": nw, "first_words": truncW(orig, 3)} })
+	w.Sample(func() interface{} {
+		return mon.D{"call": "Slice, sampled windows", "nwords": nw, "first_words": truncW(orig, 3)}
+	})
 }
